@@ -70,6 +70,7 @@ Definition put_codes : list N := [403; 400; 500; 409; 412; 201].
 Definition get_codes : list N := [403; 404; 200].
 Definition propfind_codes : list N := [403; 404; 207].
 Definition multiget_codes : list N := [403; 404; 207].
+Definition query_codes : list N := [403; 404; 500; 400; 200; 207].
 
 Ltac leaf := cbn [fst snd code_of In]; tauto.
 Ltac sound := repeat (first [progress cbn [fst snd] | brk]); leaf.
@@ -92,6 +93,8 @@ Theorem propfind_codes_sound : forall pol s p d, In (code_of (fst (do_propfind p
 Proof. intros. unfold do_propfind, propfind_codes. sound. Qed.
 Theorem multiget_codes_sound : forall pol s p cal hs, In (code_of (fst (do_multiget pol s p cal hs))) multiget_codes.
 Proof. intros. unfold do_multiget, multiget_codes. sound. Qed.
+Theorem query_codes_sound : forall pol s p k flt, In (code_of (fst (do_query pol s p k flt))) query_codes.
+Proof. intros. unfold do_query, query_codes. sound. Qed.
 
 (* ---- every code of the model occurs among the return sites of the real method; what the real method can return
         beyond the model's codes is an environment failure (StAny: a status computed elsewhere, e.g. 201 / 204 of MOVE,
@@ -104,7 +107,7 @@ Theorem codes_tied_to_code :
   /\ tied SK.sk_do_MKCALENDAR mkcalendar_codes = true /\ tied SK.sk_do_MOVE move_codes = true
   /\ tied SK.sk_do_PROPPATCH proppatch_codes = true /\ tied SK.sk_do_PUT put_codes = true
   /\ tied SK.sk_do_GET get_codes = true /\ tied SK.sk_do_PROPFIND propfind_codes = true
-  /\ tied SK.sk_do_REPORT multiget_codes = true.
+  /\ tied SK.sk_do_REPORT multiget_codes = true /\ tied SK.sk_do_REPORT query_codes = true.
 Proof.
   unfold tied. rewrite Gen_rets_DELETE, Gen_rets_MKCOL, Gen_rets_MKCALENDAR, Gen_rets_MOVE, Gen_rets_PROPPATCH,
     Gen_rets_PUT, Gen_rets_GET, Gen_rets_PROPFIND, Gen_rets_REPORT.
